@@ -64,30 +64,48 @@ fn build_app(app: &AppDesc, cors_at: u32, cors: &CORS, order_seed: u64) -> ohkam
 
 /// routes with method subsets; the same route may be split over several items of one application, and a mount point may carry routes of
 /// the mounted application at "/"
-fn gen_app(rng: &mut Rng, ids: &mut IdGen, depth: usize) -> AppDesc {
+/// `split`: the methods of one full path may also be split over applications - a route of the parent at a mount prefix whose mounted
+/// application has a route at "/", and two applications mounted at the same prefix (a shape ohkami's own tests use)
+fn gen_app(rng: &mut Rng, ids: &mut IdGen, depth: usize, split: bool, root_only: bool) -> AppDesc {
     let id = ids.app();
     let mut items: Vec<ItemDesc> = vec![];
     let mut shapes: Vec<(RouteT, Vec<usize>)> = vec![];
     let mut mounts: Vec<RouteT> = vec![];
+    if split && depth > 0 {
+        // a mounted application of a split configuration has a route at its own root
+        let m = rng.below(5);
+        shapes.push((vec![], vec![m]));
+        items.push(ItemDesc::Routes { route: vec![], methods: vec![(m, HandlerDesc { id: ids.handler(), kind: HKind::Req, local: vec![] })] });
+        if root_only {
+            // an application that shares its mount prefix with an earlier one has nothing else: ohkami merges the root of a mounted
+            // application into an existing node but refuses (loudly, at start-up) two subtrees that begin with the same segment
+            return AppDesc { id, fangs: vec![], items };
+        }
+    }
     for _ in 0..rng.range(1, 5) {
-        if depth < 2 && rng.chance(1, 4) {
-            let prefix = vec![Seg::S(rng.pick(&["api", "v1", "admin", "m"]).to_string())];
-            if mounts.contains(&prefix) || shapes.iter().any(|(r, _)| shape_prefix(&prefix, r)) {
+        if depth < 2 && rng.chance(1, if split { 2 } else { 4 }) {
+            let prefix = vec![Seg::S(rng.pick(if split { &["api", "m"][..] } else { &["api", "v1", "admin", "m"][..] }).to_string())];
+            let clash = mounts.contains(&prefix) || shapes.iter().any(|(r, _)| shape_prefix(&prefix, r));
+            // split: the same prefix twice, or a route of this application exactly at the prefix, is allowed
+            let tolerated = split && !shapes.iter().any(|(r, _)| shape_prefix(&prefix, r) && r.len() > prefix.len());
+            if clash && !tolerated {
                 continue;
             }
+            let second_at_this_prefix = mounts.contains(&prefix);
             mounts.push(prefix.clone());
-            items.push(ItemDesc::Mount { prefix, app: gen_app(rng, ids, depth + 1) });
+            items.push(ItemDesc::Mount { prefix, app: gen_app(rng, ids, depth + 1, split, second_at_this_prefix) });
             continue;
         }
-        let route: RouteT = match rng.below(6) {
+        let route: RouteT = match rng.below(if split { 8 } else { 6 }) {
             0 => vec![],
             1 => vec![Seg::S("users".into())],
             2 => vec![Seg::S("users".into()), Seg::P("id".into())],
             3 => vec![Seg::S("posts".into())],
             4 => vec![Seg::S("posts".into()), Seg::P("id".into()), Seg::S("comments".into())],
-            _ => vec![Seg::S(rng.pick(&["a", "b", "health"]).to_string())],
+            5 => vec![Seg::S(rng.pick(&["a", "b", "health"]).to_string())],
+            _ => vec![Seg::S(rng.pick(&["api", "m"]).to_string())],
         };
-        if mounts.iter().any(|m| shape_prefix(m, &route)) {
+        if mounts.iter().any(|m| shape_prefix(m, &route) && !(split && m.len() == route.len())) {
             continue;
         }
         let used: Vec<usize> = shapes.iter().find(|(r, _)| same_shape(r, &route)).map(|(_, m)| m.clone()).unwrap_or_default();
@@ -125,12 +143,31 @@ pub fn run(args: &Args, rep: &mut Report) {
             rep.begin(case);
             let mut rng = Rng::derive(args.seed, 14, case);
             let mut ids = IdGen::new();
-            let app = gen_app(&mut rng, &mut ids, 0);
+            // every fourth case: methods of one path split over applications (route at a mount prefix, two mounts at one prefix)
+            let split = case % 4 == 3;
+            let mut app = gen_app(&mut rng, &mut ids, 0, split, false);
+            if split {
+                let (flat, _) = flatten(&app);
+                let dup = flat.iter().enumerate().any(|(i, a)| flat[..i].iter().any(|b| b.method == a.method && same_shape(&a.full, &b.full)));
+                if dup {
+                    // the same (path, method) twice is refused by ohkami, rightly: fall back to the plain generator
+                    rep.count("split:discarded-duplicate-route");
+                    ids = IdGen::new();
+                    app = gen_app(&mut rng, &mut ids, 0, false, false);
+                } else {
+                    rep.count("split:apps");
+                    let several = flat.iter().enumerate().any(|(i, a)| flat[..i].iter().any(|b| same_shape(&a.full, &b.full) && a.apps != b.apps));
+                    if several {
+                        rep.count("split:apps-with-a-path-shared-by-two-applications");
+                    }
+                }
+            }
+            let split_used = split;
             // the full 2x2x2x2x2 policy matrix is walked by case index
             let b = case % 32;
             let origin = if b & 1 == 0 { "*" } else { "https://app.example.com" };
             let policy = Policy { origin, credentials: b & 2 != 0, allow_headers: (b & 4 != 0).then(|| rng.below(2)), expose: (b & 8 != 0).then(|| rng.below(2)), max_age: (b & 16 != 0).then(|| *rng.pick(&[0u32, 600, 86400])) };
-            check_app(rep, case, &app, &policy, &mut rng, small, b);
+            check_app(rep, case, &app, &policy, &mut rng, small, b, split_used);
             rep.end(case);
         }
         case += args.nshards;
@@ -146,13 +183,13 @@ fn witness(rep: &mut Report) {
     ] };
     let policy = Policy { origin: "https://app.example.com", credentials: true, allow_headers: None, expose: None, max_age: Some(600) };
     let mut rng = Rng::new(1);
-    check_app(rep, u64::MAX, &app, &policy, &mut rng, true, 99);
+    check_app(rep, u64::MAX, &app, &policy, &mut rng, true, 99, false);
 }
 
-fn check_app(rep: &mut Report, case: u64, app: &AppDesc, policy: &Policy, rng: &mut Rng, small: bool, pbits: u64) {
+fn check_app(rep: &mut Report, case: u64, app: &AppDesc, policy: &Policy, rng: &mut Rng, small: bool, pbits: u64, split: bool) {
     let (routes, apps) = flatten(app);
     // where the fang sits: the root, or a mounted application
-    let cors_app = if apps.len() > 1 && rng.chance(1, 3) { rng.pick(&apps[1..]).clone() } else { apps[0].clone() };
+    let cors_app = if !split && apps.len() > 1 && rng.chance(1, 3) { rng.pick(&apps[1..]).clone() } else { apps[0].clone() };
     let cors = build_cors(policy);
     let router = match catch(|| hook::Router::new(build_app(app, cors_app.id, &cors, case))) {
         Ok(r) => r,
